@@ -50,7 +50,7 @@ impl WVal for W3 {
 }
 
 pub const NTY: u64 = 4;
-pub const NDYN: u64 = 3;
+pub const NDYN: u64 = 4;
 
 /// dispatch on a type index
 macro_rules! with_ty {
@@ -64,8 +64,25 @@ macro_rules! with_ty {
     };
 }
 
+/// the dynamic id behind index `dynid` of type `kty`: 0, 1, 2 as they are; index 3 is an ADVERSARIAL id built from the public
+/// hashes of the TypeIds, h(T_k) ^ h(T_{k-1}) ^ 1: any scheme that folds (type, id) into one word by xor makes it collide
+/// with (T_{k-1}, 1).  Slots with different (type, id) must stay independent (C09).
+fn dynval(kty: u64, dynid: u64) -> u64 {
+    if dynid < 3 { return dynid; }
+    fn h(t: TypeId) -> u64 {
+        use std::hash::{Hash, Hasher};
+        struct Id(u64);
+        impl Hasher for Id { fn finish(&self) -> u64 { self.0 } fn write(&mut self, b: &[u8]) { for x in b { self.0 = self.0.rotate_left(8) ^ *x as u64; } } fn write_u64(&mut self, v: u64) { self.0 = v; } }
+        let mut s = Id(0); t.hash(&mut s); s.finish()
+    }
+    let tid = |k: u64| with_ty!(k, T => TypeId::of::<T>());
+    let v = h(tid(kty)) ^ h(tid((kty + NTY - 1) % NTY)) ^ 1;
+    if v < 3 { 0x5EED_0000_0000_0003 } else { v }
+}
+
 /// the four constructors of ResourceId name the same slots: odd type indices go through the TypeId-taking ones
 fn rid(kty: u64, dynid: u64) -> ResourceId {
+    let dynid = dynval(kty, dynid);
     if kty % 2 == 1 {
         with_ty!(kty, T => if dynid == 0 { ResourceId::from_type_id(TypeId::of::<T>()) } else { ResourceId::from_type_id_and_dynamic_id(TypeId::of::<T>(), dynid) })
     } else {
